@@ -297,6 +297,9 @@ pub fn run(run: &Run) {
         (NetID::Custom02, 65536, vec![]),
         (NetID::Testnet, 0, vec![Action::Jump(498)]),
         (NetID::Custom08, 0, vec![]),
+        // mainnet: the grandfathered faucet is in both alphabets - the one transaction that leaves no marker in the coin tree, so
+        // whatever a running node remembers about having applied it is not in what a restarted node reads back (seed C08-r13-1)
+        (NetID::Mainnet, 0, vec![]),
     ] {
         let (_w, mut r) = root(net, fm, true);
         for a in &pre {
